@@ -44,6 +44,10 @@ Definition ext_label (c : Z) : option label :=
   match c with
   | 0 => Some LCallServe | 1 => Some LCallShutdown | 2 => Some LCallClose
   | 3 => Some LConnect | 4 => Some LDisconnect | 9 => Some LUdpQueue
+  (* 20 / 21: server_close() / shutdown() whose caller is cancelled at the call's first checkpoint.  What the call does
+     before that checkpoint and what its exit stack / finally clauses do while unwinding is the whole effect of the call
+     on the server (the awaits only wait), so the server goes through the same states; the call itself is over at once. *)
+  | 20 => Some LCallClose | 21 => Some LCallShutdown
   | _ => None
   end.
 
@@ -72,7 +76,10 @@ Definition do_label (g : gates) (c : Z) (s : st) (stat : list Z) : st * list Z :
                        else (s, [])
                    end in
   let '(s2, o2) := settle FUEL g' s1 in
-  (s2, apply_obs (o1 ++ o2) (pad (next_id s2) stat)).
+  let stat2 := apply_obs (o1 ++ o2) (pad (next_id s2) stat) in
+  (s2, if (Z.eqb c 20 || Z.eqb c 21)%bool
+       then (if Z.eqb (nth (next_id s) stat2 0) 0 then set_nth (next_id s) 1 stat2 else stat2)
+       else stat2).
 
 Fixpoint run_labels (g : gates) (cs : list Z) (s : st) (stat : list Z) : list sx :=
   match cs with
